@@ -111,7 +111,10 @@ def c10_formulas(res, rec, tag=""):
     with np.errstate(all="ignore"):
         if res.iscsd:
             g2 = np.asarray(res.coh)
-            ok = g2 > 0
+            # the property's domain is coherence in (0,1]; a reported value a few ulp above 1
+            # (K=1 bins, rounding) makes 1-g2 negative rounding noise and is not asserted
+            ok = (g2 > 0) & (g2 <= 1)
+            rec.count("c10_bins_in_domain", int(ok.sum()))
             if not np.any(ok):
                 return
             ref = refmodel.bp_formulas(np.asarray(res.Gxx), np.asarray(res.Gyy),
